@@ -51,7 +51,16 @@ def gen_settings_spec(rng, max_n=3, p_patterns=0.5, degenerate=False):
 def variant(rng, spec):
     """A setting that differs from `spec` in exactly one attribute (for the cache-key clause)."""
     s = copy.deepcopy(spec)
-    kind = rng.choice(['degree', 'rep', 'exclude', 'pattern', 'transpose'])
+    kind = rng.choice(['degree', 'rep', 'exclude', 'pattern', 'transpose', 'permute_patterns', 'permute_patterns'])
+    if kind == 'permute_patterns':
+        # the same existence patterns in another order: a different setting (patterns are addressed by index)
+        if not s['patterns'] or len(s['patterns']) < 2:
+            sc = [True] + [False] * (len(s['src']) - 1)
+            s['patterns'] = [{'src': [True] * len(s['src']), 'tgt': [True] * len(s['tgt'])},
+                             {'src': [True] * len(s['src']), 'tgt': [False] + [True] * (len(s['tgt']) - 1)}]
+            return s if s != spec else variant(rng, spec)
+        s['patterns'] = list(reversed(s['patterns']))
+        return s if s != spec else variant(rng, spec)
     if kind == 'degree':
         side = rng.choice(['src', 'tgt'])
         n = rng.choice(s[side])
